@@ -118,6 +118,10 @@ def main(argv):
                     if not agrees:
                         corr_fail.append({"input": inp, "printed": text_of(im.get("P")), "implementation": "P=%s ;; R=%s" % (im.get("P"), im.get("R")),
                                           "model": model, "what": "printed bytes (SexpString vs print) / parse of the printed text (vs lex_all + parse_whole)"})
+                    if mo.get("EV", "-") != "-" and im.get("E") != mo["EV"]:
+                        agrees = False
+                        corr_fail.append({"input": inp, "printed": text_of(im.get("P")), "implementation": "E=%s" % im.get("E"), "model": "EV=%s" % mo["EV"],
+                                          "what": "EvalString of the printed text vs eval_json_like (read (print v)) (the model of the hash builder / literal evaluation)"})
                     printed = text_of(im.get("P"))
                     fails = []
                     if sp.get("R", "-") != "-" and im.get("R") != sp["R"]:
